@@ -387,6 +387,7 @@ func (e *Exec) chanRecv(st *State, x *ssa.UnOp, b *ssa.BasicBlock, idx int) bool
 	et := x.X.Type().Underlying().(*types.Chan).Elem()
 	v := e.freshVal("recv", et)
 	st.counts["blocking"]++
+	st.counts["chanrecv"]++
 	st.events = append(st.events, "chanrecv")
 	if e.isSignalChan(x.X) {
 		// a channel that is never sent on: a receive returns only once it is closed
@@ -444,7 +445,22 @@ func (e *Exec) isSignalChan(v ssa.Value) bool {
 func (e *Exec) doSelect(st *State, x *ssa.Select, b *ssa.BasicBlock, idx int) bool {
 	fr := st.top()
 	e.interfere(st)
-	e.atAnchor(st, x, nil, nil)
+	// at select: arguments are, case by case, the channel and (for a send
+	// case) the value sent; 'blocking' tells whether there is no default
+	var selArgs []Val
+	for _, s := range x.States {
+		selArgs = append(selArgs, e.val(st, s.Chan))
+		if s.Dir == types.SendOnly {
+			selArgs = append(selArgs, e.val(st, s.Send))
+		}
+	}
+	blk := "false"
+	if x.Blocking {
+		blk = "true"
+	}
+	e.selBlocking = blk
+	e.atAnchor(st, x, selArgs, nil)
+	e.selBlocking = ""
 	// result tuple: (index int, recvOk bool, recv values...)
 	tt := x.Type().(*types.Tuple)
 	type outcome struct {
